@@ -26,6 +26,11 @@ theorem readLoop_spawned_only_by_Listen : wsConn_spawn_runReadLoop = ["Listen"] 
 `WriteControl`, `WritePreparedMessage`, `WriteJSON`) is a `write wswrite` node of the graph, wherever it
 is: `wsConn_lockset` covers them all, no single-site obligation is needed. -/
 
+/-- nothing else in the `ws` package — the constructor, the handler closures it installs, methods of other types —
+calls a frame-writing or frame-reading method of the underlying connection: every such call is a node of the graph
+`wsConn_lockset` covers -/
+theorem wire_calls_only_in_methods : wsConn_outside_wire = [] := by decide
+
 /-! protocol constants of the source equal the model's -/
 theorem const_size : Consts.OptSize = kSize := by decide
 theorem const_chunk : Consts.OptChunk = kChunk := by decide
